@@ -57,6 +57,10 @@ func vfIsStoppedText(s string) bool {
 func TestVF_C10(t *testing.T) {
 	scs := vfStopScenarios()
 	var cases []vfCase
+	if os.Getenv("VF_PROCS") != "" {
+		vfRunCases(t, "C10", vfProcSignalCases(), 2, 200*time.Second)
+		return
+	}
 	if os.Getenv("VF_POINTS") != "" {
 		// one-point delay family: every yield point of buffer.go, transfer.go and pipeline.go is held open
 		// for 5 ms in turn while stop cases run one at a time
